@@ -5,9 +5,9 @@ vf/asm_text.py flattens the structured spellings; miasmX assembles; C->S: T_C19.
 import json, random, collections
 from . import core, asmlib, asm_text
 
-DIMS = ['syn', 'rc', 'kc', 'sp', 'nb', 'isg', 'dsg', 'ord', 'dout', 'pct', 'st0', 'dsp']
+DIMS = ['syn', 'rc', 'kc', 'sp', 'nb', 'isg', 'dsg', 'ord', 'dout', 'pct', 'st0', 'dsp', 'dz']
 PRES0 = {'syn': 'intel', 'rc': 'lower', 'kc': 'upper', 'sp': 'canon', 'nb': 'dec', 'isg': False, 'dsg': False,
-         'ord': 'bid', 'dout': False, 'pct': False, 'st0': 'paren', 'dsp': 'one'}
+         'ord': 'bid', 'dout': False, 'pct': False, 'st0': 'paren', 'dsp': 'one', 'dz': False}
 
 
 GROUP = dict([(m, 'alu') for m in ('add', 'or', 'adc', 'sbb', 'and', 'sub', 'xor', 'cmp', 'test')]
@@ -171,6 +171,10 @@ def report(chk, sel, recs, verdicts, confirm=True):
             if len(acts) > 1 and any(a in single for a in acts):
                 continue                      # subsumed by a failing single-action spelling of the same line
             fails.append((r, sid, f, acts))
+    # writing a zero displacement explicitly ([eax] -> [eax+0]) is not among the rewrites the property lists; it is the BASE on which
+    # the listed ones act ([eax+0] <-> 0[eax] <-> [0+eax] <-> 0(%eax)): a difference of the dz-only spelling is not reported
+    # (and subsumes the spellings built on it, above), a difference that appears only together with a listed rewrite is
+    fails = [x for x in fails if x[3] != ['dz=true']]
     hist = [x for x in fails if x[3] and x[3][0].startswith('After=')]     # order dependence is what these events are about
     fails = [x for x in fails if not (x[3] and x[3][0].startswith('After='))]
     if confirm and fails:
